@@ -68,6 +68,13 @@ def timeaxis(desc):
 
 def make_cf(time, b, cls="CorrelationFunction"):
     import quantarhei as qr
+    if b["ftype"] == "Value-defined-real":
+        # a classical (real valued) correlation function given by its values: C(t) = 2 lambda kT exp(-t/tau)
+        from qrv.oracles import units as _U
+        lam = b["reorg"] * _U.E_FAC["1/cm"]
+        vals = (2.0 * lam * _U.KB_INT_PER_K * b["T"]) * numpy.exp(-numpy.asarray(time.data) / b["cortime"])
+        with qr.energy_units("1/cm"):
+            return qr.CorrelationFunction(time, {"ftype": "Value-defined", "reorg": b["reorg"], "T": b["T"]}, values=vals.astype(complex) if b.get("complex_dtype") else vals)
     prm = {"ftype": b["ftype"], "reorg": b["reorg"], "T": b["T"]}
     if "cortime" in b:
         prm["cortime"] = b["cortime"]
